@@ -593,8 +593,24 @@ func (h *hist) newCont(rec bool, level int) *cont {
 			real = v.(*SuObject)
 		}
 	}
+	m := newModel(rec)
+	if rec && h.r.IntN(3) == 0 {
+		// a record as a query delivers it: backed by a stored row whose fields are unpacked on demand
+		names := []string{"a", "b", "c", "ab", "zz"}
+		h.r.Shuffle(len(names), func(i, j int) { names[i], names[j] = names[j], names[i] })
+		names = names[:1+h.r.IntN(3)]
+		var rb RecordBuilder
+		for _, nm := range names {
+			n := int64(1 + h.r.IntN(9))
+			rb.Add(IntVal(int(n)))
+			m.named["s:"+nm] = ment{mkey{canon: "s:" + nm, real: SuStr(nm)}, mval{k: kNum, n: n, d: 1, real: IntVal(int(n))}}
+		}
+		hdr := NewHeader([][]string{names}, names)
+		real = SuRecordFromRow(Row{DbRec{Record: rb.Build()}}, hdr, "", nil)
+		h.rep.Count("row_backed_records", 1)
+	}
 	h.nextID++
-	return &cont{real: real, m: newModel(rec), level: level, id: h.nextID}
+	return &cont{real: real, m: m, level: level, id: h.nextID}
 }
 
 // constant nested values: read-only literals. Some compare equal (Compare looks
